@@ -22,7 +22,9 @@ CONSTANTS K,           \* number of concurrent program instances per combination
                        \* one lock request to the next without being pre-empted); FALSE: every interleaving
 
 \* mined programs: sequence of records [name |-> STRING, ops |-> Seq(<<"acq"|"rel", lock, mode>>)]
-Mined == ndJsonDeserialize(IOEnv.PROGRAMS)
+\* parsed once (a plain definition would re-read the file on every evaluation)
+ASSUME TLCSet(7, ndJsonDeserialize(IOEnv.PROGRAMS))
+Mined == TLCGet(7)
 NProg == Len(Mined)
 Ops(p) == Mined[p].ops
 
